@@ -37,7 +37,7 @@
 (* observable step applies the Ws update and records a violated Ws guard   *)
 (* in `viol` (invariant Refines: viol = {}).                               *)
 (*                                                                         *)
-(* FixDup / FixDel = FALSE is the tree as it is (open findings):           *)
+(* FixDup / FixDel = FALSE is the tree before /repo 8c78f49 / 4ef0222:     *)
 (*   ~FixDup  subscribe() overwrites active[id] of a running operation     *)
 (*   ~FixDel  the worker sends the terminating frame BEFORE it deletes     *)
 (*            active[id], and deletes whatever is registered under the id  *)
@@ -46,8 +46,9 @@
 (* TRUE is the (proposed / made) repair; the properties hold on the        *)
 (* repaired model (MC_WsImpl.cfg) and TLC produces the counterexamples on  *)
 (* the other (MC_WsImpl_pinned.cfg).  The scripts that are replayed into   *)
-(* the code are generated from the model of the tree as it is              *)
-(* (MC_WsImpl_script.cfg: FixDup = FixDel = FALSE, FixInit = TRUE).        *)
+(* the code are generated from the model of the tree as it is: since       *)
+(* /repo 4ef0222, 8020218, 8c78f49 that is the repaired model              *)
+(* (MC_WsImpl_script.cfg: FixDup = FixDel = FixInit = TRUE).               *)
 (***************************************************************************)
 EXTENDS Ws, Json
 
@@ -62,6 +63,8 @@ CONSTANTS
   MaxMsgs, K, MaxTicks,
   FixDup, FixDel, FixInit,
   PreAcked,                      \* TRUE: start right after an accepted handshake (reader in the run loop)
+  Bursts,                        \* Sync only: the client may put a second message right behind init / start
+                                 \* (two frames in one TCP write: the reader finds it without any delay)
   Sync
 
 VARIABLES
@@ -163,6 +166,14 @@ ProcOrder == <<"R">> \o InstOrder \o <<"C", "KA", "PO", "PP">>
 PPos(p) == CHOOSE n \in 1..Len(ProcOrder) : ProcOrder[n] = p
 MayRun(p) == Sync => \A n \in 1..Len(ProcOrder) : n < PPos(p) => ~CanStep(ProcOrder[n])
 Env == Sync => Quiet
+\* the client's second frame of one write: everything is quiescent except that the reader has the first
+\* frame (init or start) waiting in its inbox
+BurstOK(m) ==
+  /\ Bursts /\ Len(inbox) = 1 /\ mu = "free"
+  /\ (inbox[1].m = "init" /\ m = "start") \/ (inbox[1].m = "start" /\ m \in {"start", "stop", "term"})
+  /\ \A p \in Procs \ {"R"} : ~CanStep(p)
+  /\ IF prog["R"] = <<>> THEN FALSE ELSE Head1("R").t \in {"rdinit", "read"}
+EnvC(m) == Sync => (Quiet \/ BurstOK(m))
 
 \* -------------------------------------------------------- write and close --
 Lock(p) ==
@@ -446,7 +457,7 @@ NextInst(id) == {i \in AllInsts : /\ IdOfInst[i] = id /\ i \notin Insts(w)
 Msg(m, id, i, kind) == [m |-> m, id |-> id, i |-> i, kind |-> kind]
 
 ClientSends(m, id, i, kind) ==
-  /\ nsent < MaxMsgs /\ ~cgone /\ ~closed /\ Env
+  /\ nsent < MaxMsgs /\ ~cgone /\ ~closed /\ EnvC(m)
   /\ prog["R"] # <<>>            \* (nobody reads any more: further messages change nothing)
   /\ nsent' = nsent + 1
   /\ w' = CSend_F(w, c, m, id, i, kind) /\ Chk(CSend_G(w, c, m, id, i), "CSend")
@@ -497,7 +508,8 @@ Proj ==
 EnvNames == {"CSend", "SrvCancel", "InitTimeout", "Deadline", "Tick", "SrcEmit", "SrcEnd"}
 Next ==
   /\ System \/ Environment
-  /\ hist' = (IF Sync /\ act'.name \in EnvNames THEN Append(hist, [a |-> act', o |-> Proj]) ELSE hist)
+  \* (b: the decision was taken in a non-quiescent state = second frame of one client write)
+  /\ hist' = (IF Sync /\ act'.name \in EnvNames THEN Append(hist, [a |-> act', o |-> Proj, b |-> ~Quiet]) ELSE hist)
 
 \* gqlgen's own steps are weakly fair; so is (by the property's assumption)
 \* a Source that has been cancelled.  The environment is not.
